@@ -315,7 +315,8 @@ class VariableSizedTiles:
     def __dask_tokenize__(self):
         return (
             "odc.geo.roi.VariableSizedTiles",
-            *self._offsets,
+            # plain ints: dask turns arrays nested in this tuple into their (abbreviated) repr
+            *(tuple(idx.tolist()) for idx in self._offsets),
         )
 
     def __str__(self) -> str:
